@@ -61,7 +61,7 @@ func fillStars(r *rand.Rand, p string) string {
 
 // NCLI is the number of inputs that also go to the CLI channel; the input right
 // after them is the fixed dependency-ring slot (in-process channel only).
-func NCLI(nSeeds int) int { return nSeeds + h.Pick(700, 12000) }
+func NCLI(nSeeds int) int { return nSeeds + h.Pick(700, 8000) }
 
 // GenInput builds input number i from the corpus. It is a pure function of
 // (VERIF_SEED, i).
@@ -114,7 +114,7 @@ func GenInput(seeds []Seed, i int) Input {
 				}
 			}
 			if changed {
-				if out, err := encode(doc); err == nil {
+				if out, err := encode(doc); err == nil && len(out) <= 256<<10 {
 					data = out
 				} else {
 					in.Muts = append(in.Muts, "encode-failed")
@@ -130,7 +130,7 @@ func GenInput(seeds []Seed, i int) Input {
 			for k := 0; k < n; k++ {
 				other := seeds[r.Intn(len(seeds))].Data
 				out, m := lexMutate(r, data, other)
-				if m != "" {
+				if m != "" && len(out) <= MaxInput {
 					data = out
 					in.Muts = append(in.Muts, m)
 				}
